@@ -261,7 +261,7 @@ class EofWalk(object):
                 if is_int(a) and a[1] == 0:
                     return I(LIBC_ZERO[base])
                 return U
-            g = self.db.funcs.get(n.get("cm"))
+            g = self.db.func_of_call(f, n)
             if g is not None and not n.get("virt") and "o" not in n or (g is not None and g.d.get("smeth")):
                 args = [self.eval(f, a, env, depth) for a in n.get("a", ())]
                 if args and all(a is not U for a in args) and len(args) == len(g.d.get("params", ())):
